@@ -112,6 +112,7 @@ theorem C14_open_files_exact (w : World) (hwf : ∀ d ∈ w.fds, WFFd w.fs d) :
   have hg := cfg_good_scan
   have ha := cfg_good_access
   unfold openFiles openFilesBody renderWorld expectedOpenFiles World.denied World.vanished
+  simp only [hg.scanLimit]
   cases hgb : w.goneBefore with
   | true => simp [fileExc, goneExc, wrap, wrapExc]
   | false =>
@@ -120,21 +121,16 @@ theorem C14_open_files_exact (w : World) (hwf : ∀ d ∈ w.fds, WFFd w.fs d) :
     | true => simp [fileExc, wrap, wrapExc, ha.wrapPermAD]
     | false =>
       simp only [Bool.false_eq_true, if_false, Bool.false_or]
-      cases hda : w.diesAt with
-      | none =>
-        simp only [World.seen, hda]
-        rw [scan_render cfg hg ha C14_mode_total w.fs w.fds hwf]
-        cases List.any w.fds (deniedFd w.fs) <;> simp [wrap, wrapExc, ha.wrapPermAD]
-      | some k =>
-        simp only [World.seen, hda]
-        rw [scan_render cfg hg ha C14_mode_total w.fs _ (killFrom_wf w.fs k w.fds hwf)]
-        cases List.any (killFrom k w.fds) (deniedFd w.fs) with
-        | true => simp [wrap, wrapExc, ha.wrapPermAD]
-        | false =>
-          by_cases hk : k < w.fds.length
-          · simp [hk, killFrom_hits w.fs k w.fds hk, hg.finalAliveCheck, wrap, wrapExc]
-          · rw [killFrom_ge k w.fds (by omega)]
-            simp [hk, wrap]
+      rw [scan_render cfg hg ha C14_mode_total w.fs w.seen (seen_wf w hwf), any_failsGone]
+      cases List.any w.seen (deniedFd w.fs) with
+      | true => simp [wrap, wrapExc, ha.wrapPermAD]
+      | false =>
+        cases hdied : w.died with
+        | false => simp [seen_of_not_died w hdied, wrap]
+        | true =>
+          cases hh : w.seen.any (hits w.fs) with
+          | true => simp [hg.finalAliveCheck, wrap, wrapExc]
+          | false => simp [seen_listed_of_no_hits w hh, wrap]
 
 /-- a process that stays alive during the call -/
 def Live (w : World) : Prop := w.goneBefore = false ∧ w.diesAt = none
@@ -153,7 +149,7 @@ theorem C14_closing_fd_never_fails (w : World) (hl : Live w) (hi : Inspectable w
       = .ok ((w.fds.filter fun d => d.closesAt.isNone).filterMap (listed w.fs)) := by
   rw [C14_open_files_exact w hwf, ← listed_filter_open]
   unfold Inspectable at hi
-  simp [expectedOpenFiles, World.vanished, hl.1, hl.2, hi]
+  simp [expectedOpenFiles, World.vanished, hl.1, died_of_diesAt_none w hl.2, hi]
 
 /-- **a process that exits during the scan** (it becomes a zombie at scan index `k`: every later
     descriptor answers ENOENT, the pid is still there) does not fail the call: the answer is what
@@ -181,7 +177,7 @@ theorem C14_listed_whatever_the_path (w : World) (hl : Live w) (hi : Inspectable
   unfold Inspectable at hi
   refine ⟨w.fds.filterMap (listed w.fs), ?_, ?_⟩
   · rw [C14_open_files_exact w hwf]
-    simp [expectedOpenFiles, World.vanished, hl.1, hl.2, hi]
+    simp [expectedOpenFiles, World.vanished, hl.1, died_of_diesAt_none w hl.2, hi]
   · exact List.mem_filterMap.mpr ⟨d, hd, by simp [listed, hk, hc, hf]⟩
 
 /-- file system of the seeded witness: `/dev/shm/x` is a regular file, `/dev/null` exists and is not -/
@@ -312,20 +308,23 @@ theorem C14_gone_process_NSP (w : World) (hwf : ∀ d ∈ w.fds, WFFd w.fs d) (h
   rw [C14_open_files_exact w hwf]
   rcases hi with hi | hi <;> simp [expectedOpenFiles, h, hi]
 
-/-- **num_fds counts every descriptor**, of whatever kind, closing or not -/
+theorem cfg_good_count : cfg.GoodCount := by
+  constructor <;> decide
+
+/-- **num_fds counts every descriptor**, of whatever kind, closing or not, whenever and at whichever
+    stage the process dies during a concurrent scan — for every table length (obligation
+    `cfg_good_count`: the code is `len(os.listdir(<pid>/fd))`, uncapped) -/
 theorem C14_num_fds (w : World) : numFds cfg (renderWorld w) = expectedNumFds w := by
   have ha := cfg_good_access
+  have hc := cfg_good_count
   unfold numFds renderWorld expectedNumFds
+  simp only [hc.numFdsCap]
   cases hgb : w.goneBefore with
-  | true => simp [fileExc, goneExc, wrap, wrapExc, World.vanished, hgb]
+  | true => simp [fileExc, goneExc, wrap, wrapExc]
   | false =>
     cases hdd : w.dirDenied with
     | true => simp [fileExc, wrap, wrapExc, ha.wrapPermAD]
-    | false =>
-      simp only [Bool.false_eq_true, if_false, wrap, List.length_map]
-      cases hda : w.diesAt with
-      | none => simp [World.seen, hda]
-      | some k => simp [World.seen, hda, killFrom_length]
+    | false => simp [wrap, seen_length]
 
 /-! ### zombies and refused directories (any file system, any state of the rest) -/
 
@@ -375,15 +374,19 @@ theorem C14_error_contract (fs : FS) (alive zombie : Bool) (e : FileErr) (x : Ex
       simp [openFiles, openFilesBody, numFds, Pio.ioCounters, Pio.ioCountersBody, fileExc, goneExc, wrap, wrapExc,
         ha.wrapZombieFirst]
 
-/-- a zombie is a process like any other for `open_files()`/`num_fds()`: the `zombie` flag of
-    the world does not change the promised answer (stated through `C14_open_files_exact`, whose
-    right-hand side does not mention it); here: a zombie whose table is empty -/
-theorem C14_zombie_world (w : World) (hz : w.zombie = true) (he : w.fds = [])
+/-- a zombie whose descriptor table is empty (the kernel has released it): `[]` and `0`, in every
+    other state of the world (dying at any index / stage included). That the `zombie` flag never
+    changes the promised answer of a NON-empty table is `C14_open_files_exact` itself, whose right-hand
+    side does not mention the flag. -/
+theorem C14_zombie_world (w : World) (he : w.fds = [])
     (hg : w.goneBefore = false) (hd : w.dirDenied = false) :
     openFiles cfg w.fs (renderWorld w) = .ok [] ∧ numFds cfg (renderWorld w) = .ok 0 := by
   rw [C14_open_files_exact w (by simp [he]), C14_num_fds]
-  cases hda : w.diesAt <;>
-    simp [expectedOpenFiles, expectedNumFds, World.denied, World.vanished, World.seen, hg, hd, he, hda, killFrom]
+  have hs : w.seen = [] := by
+    have := seen_length w
+    rw [he] at this
+    exact List.eq_nil_of_length_eq_zero (by simpa using this)
+  simp [expectedOpenFiles, expectedNumFds, World.denied, World.vanished, hs, hg, hd, he]
 
 /-- the fdinfo record round-trips for every offset and flag word: `pos:` is read as decimal
     and `flags:` as OCTAL (the kernel prints `0%o`), whatever follows in the file -/
@@ -432,7 +435,7 @@ example : ∃ w : World, Live w ∧ Inspectable w ∧ (∀ d ∈ w.fds, WFFd w.f
      ⟨6, .device [47, 100], 0, 2, [], none, none⟩,
      ⟨7, .regular [47, 102] false, 1, 1, [], some (.beforeFdinfo .esrch), none⟩,
      ⟨8, .regular [47, 102] false, 1, 1, [], some (.duringFdinfo false .enoent), none⟩,
-     ⟨9, .regular [47, 102] false, 1, 1, [], some (.duringFdinfo true .esrch), none⟩], fsW, false, none, false, false⟩,
+     ⟨9, .regular [47, 102] false, 1, 1, [], some (.duringFdinfo true .esrch), none⟩], fsW, false, none, false, false, false⟩,
    ⟨rfl, rfl⟩, by unfold Inspectable; decide, by decide, rfl, by decide⟩
 
 /-! ## io_counters -/
@@ -677,7 +680,7 @@ theorem C14_num_fds_vs_open_files (w : World) (hl : Live w) (hi : Inspectable w)
   refine ⟨w.fds.filterMap (listed w.fs), w.fds.length, ?_, ?_, ?_, length_filterMap_add _ _⟩
   · rw [C14_open_files_exact w hwf]
     unfold Inspectable at hi
-    simp [expectedOpenFiles, World.vanished, hl.1, hl.2, hi]
+    simp [expectedOpenFiles, World.vanished, hl.1, died_of_diesAt_none w hl.2, hi]
   · rw [C14_num_fds]
     simp [expectedNumFds, hl.1, hdd]
   · intro f hf
